@@ -77,7 +77,7 @@ theorem C10_probe_entries_complete :
 
 /-- non-vacuity: eight of the nine ways leave the output closed; on the open session every
 transmit entry reaches the connection -/
-example : (Probe.ways.filter fun w => (Probe.stateAfter w).outClosed).length = 8 := by decide
+example : (Probe.ways.filter fun w => (Probe.stateAfter w).outClosed).length = 9 := by decide
 example : ∀ e ∈ Probe.entries, e.2 ≠ .read → (Probe.cell (Probe.stateAfter ⟨"open", false, []⟩) e).2.2 = true := by decide
 
 /-- **probe fact, closure over the API** (round E; replaces the call-graph facts `wireFns` /
@@ -1396,5 +1396,26 @@ theorem C10_srv_close_once_final (nest : Bool) (acts : List Act) :
   · intro r hr
     have hb := inv.ret r hr
     exact ⟨hb.1, hb.2, hcnt hb.2⟩
+
+/-! ### Round G: a transmit call queued behind a `Close` that is blocked in its write -/
+
+/-- **probe fact** (real session; the connection's `Write` blocks as on a transport whose peer does
+not read, and honours the write deadline): `Close` is inside the connection write of the closing
+tag, holding the output lock; a transmit call whose context is ALREADY OVER is issued and queues
+for the lock.  While `Close` holds the lock the queued call makes no deadline call at all — the
+context watcher (`ConnDl.watcher`) is started under the output lock, never before it —, so when the
+peer reads again the tag is written exactly once and `Close` returns nil.  This is the hypothesis
+under which the `Lts` lets a sender act on the connection only from `locked` on. -/
+theorem C10_probe_queued_transmit_keeps_deadlines :
+    ∃ t, Generated.C10.queuedTransmitProbe = some t ∧ t.length = 7 ∧
+      ∀ r ∈ t, r.2.1 = [] ∧ r.2.2.1 = 1 ∧ r.2.2.2 = "ok" :=
+  ⟨_, rfl, by decide, by decide⟩
+
+/-- NOT the code (negation witness): the watcher of a queued call with a done context acting
+before the lock is taken — the write deadline is in the past when `Close` writes: marked closed,
+no tag, ever (`WdHist` with a deadline left in the past) -/
+theorem C10_watcher_before_lock_loses_closing_tag :
+    (WdHist.step true { WdHist.init with wdPast := true } .close) =
+      ({ WdHist.init with wdPast := true, outClosed := true }, .failed) := by decide
 
 end XmppModel.Props.C10
